@@ -16,6 +16,7 @@ func init() {
 	register(&Prop{ID: "C05", Run: runC05,
 		Technique: "static analysis: dominance guards + must-pass-through on go/ssa, enum typestate on the node status, constant/value-flow of signals and contexts, sibling agreement of process executors",
 		Decided: []string{
+			"the scheduler's cancel flag is only ever raised: every write outside the creating literal stores a non-zero constant (C05.cancel-flag-monotone, also run by C04)",
 			"a step's signalOnStop is stored only when the resolver the stop path uses (unix.SignalNum) accepts that very text (C05.signal-name-valid, shared with C13.validity)",
 			"no launch and no (re-)execution after cancel: launch and the worker's exec call are dominated per iteration by !isCanceled() (C05.no-launch-after-cancel)",
 			"Signal sets the canceled flag before fanning out, visits every node, and skips only repeating steps (C05.signal-fanout)",
@@ -52,6 +53,7 @@ func runC05(e *Env) {
 	c04Handlers(e, s)
 	// the stop path resolves the step's signalOnStop with unix.SignalNum: a name the
 	// loader accepted but that resolver maps to 0 is "delivered" as signal 0 - not at all
+	c05CancelFlagMonotone(e, "C05.cancel-flag-monotone")
 	r.Rule("C05.signal-name-valid", "DCS", "a step's signalOnStop is stored only when the stop path's resolver accepts that very text", 1)
 	if cSignalNameValid(e, func(*ssa.Function) bool { return true }) == 0 {
 		r.Unknown("stores of Step.SignalOnStop", "-", "no computed store of Step.SignalOnStop found (loader not recognised)")
